@@ -39,6 +39,25 @@ impl TypeInfo for Counted {
     }
 }
 
+/// hand-written metadata with documentation and type names everywhere (docs_always: independent of the docs feature)
+struct Documented;
+impl TypeInfo for Documented {
+    type Identity = Self;
+    fn type_info() -> Type {
+        use scale_info::build::Variants;
+        Type::builder()
+            .path(Path::new("Documented", module_path!()))
+            .type_params(vec![scale_info::TypeParameter::new("T", Some(meta_type::<u16>())), scale_info::TypeParameter::new("U", None)])
+            .docs_always(&["type doc 1", "type doc 2"])
+            .variant(
+                Variants::new()
+                    .variant("A", |v| v.index(3).docs_always(&["variant A doc"]).fields(Fields::named().field(|f| f.ty::<u8>().name("a").type_name("u8").docs_always(&["field a doc"])).field(|f| f.compact::<u32>().name("b").type_name("u32"))))
+                    .variant("B", |v| v.index(200).docs_always(&["variant B doc", "more"]).fields(Fields::unnamed().field(|f| f.ty::<Vec<Documented>>().type_name("Vec<Documented>").docs_always(&["unnamed doc"]))))
+                    .variant_unit("C", 7),
+            )
+    }
+}
+
 struct Root { name: &'static str, mt: fn() -> MetaType, alias_of: Option<usize> }
 
 fn roots() -> Vec<Root> {
@@ -51,10 +70,12 @@ fn roots() -> Vec<Root> {
         r!((u8, u16)), r!([u8; 3]), r!(Option<u32>), r!(Result<u8, String>), r!(BTreeMap<u8, String>), r!(scale::Compact<u32>), r!(core::ops::Range<u8>), r!(core::time::Duration), r!(G<u16>), r!(Vec<u16>),
         // wrappers of wrappers: their target is itself an alias
         r!(Box<Rc<u8>>, 0), r!(&'static Box<u8>, 0), r!(Arc<String>, 3), r!(Box<Vec<u8>>, 4),
+        r!(Documented), r!(bitvec::vec::BitVec<u8, bitvec::order::Lsb0>), r!(bitvec::vec::BitVec<u16, bitvec::order::Msb0>), r!([Documented; 5]), r!((Documented, u8, Rec)),
     ]
 }
 
 pub const NESTED_FROM: usize = 35;
+pub const NESTED_TO: usize = 39;
 
 fn snapshot(r: &Registry) -> Vec<(u32, Type<PortableForm>)> { r.types().map(|(k, v)| (k.id, v.clone())).collect() }
 
@@ -139,7 +160,7 @@ fn run(hist: &[usize], rs: &[Root], fails: &mut Vec<Value>) -> Run {
         if let Some(t) = rs[ri].alias_of {
             let n0 = snapshot(&reg).len();
             let tid = reg.register_type(&(rs[t].mt)()).id;
-            if tid != id { fails.push(json!({"law": if ri >= NESTED_FROM { "alias_nested" } else { "alias" }, "history": hs(hist), "detail": format!("{} has id {id} but its target {} has id {tid} (entries {n0}->{})", rs[ri].name, rs[t].name, snapshot(&reg).len())})); }
+            if tid != id { fails.push(json!({"law": if ri >= NESTED_FROM && ri < NESTED_TO { "alias_nested" } else { "alias" }, "history": hs(hist), "detail": format!("{} has id {id} but its target {} has id {tid} (entries {n0}->{})", rs[ri].name, rs[t].name, snapshot(&reg).len())})); }
         }
     }
     let count = COUNT.load(Ordering::SeqCst);
